@@ -22,7 +22,8 @@ type Obligation struct {
 	Pos    string
 	Note   string
 	Func   *FuncVC
-	Trivial bool  // the condition simplified to true while it was generated (discharged syntactically)
+	Trivial bool
+	noSplit bool // already a case of an edge split  // the condition simplified to true while it was generated (discharged syntactically)
 	Raw    string // raw SMT-LIB text (bit-vector lemmas); replaces the generated query
 	Expect string // "unsat" normally; "sat" for must-fail twins / covers
 	Vars   []string // interesting model vars
@@ -123,6 +124,7 @@ type FuncVC struct {
 	heapType    map[string]types.Type
 	callOrd     map[ssa.Instruction]int
 	assertBlk   []int // block index during which each assert was emitted (-1: global)
+	inEdges     map[int][]Term // incoming edge conditions of merge blocks (for case splits of undecided obligations)
 	assertTag   map[int]string // asserts that stem from a property-tagged obligation (assume-after-assert)
 	anc         map[int]map[int]bool
 }
